@@ -54,9 +54,6 @@ func init() {
 			if core.FuncKey(f) == os.Getenv("DSCHECK_DEBUG_LOCKS") {
 				for _, e := range w.CG().In[f] {
 					fmt.Println("  IN", core.FuncKey(e.Caller), e.Kind, w.InstrPos(e.Site))
-					if s, ok := e.Site.(interface{ Parent() interface{} }); ok {
-						_ = s
-					}
 				}
 			}
 		}
